@@ -53,6 +53,12 @@ def opSecpJudgeSig (j : Json) : Json :=
   Json.mkObj [("shape", shape), ("verifies", verifies), ("addr", Json.str (hexOfBytes addr)),
               ("pub", Json.str (hexOfBytes (Prim.Secp.ptSer pub)))]
 
+def opSecpAddr (j : Json) : Json :=
+  let key := fromBE (Json.getHex! j "key")
+  let pub := Prim.Secp.pubOfPriv key
+  Json.mkObj [("addr", Json.str (hexOfBytes (keyAddress concreteCurve key))),
+              ("pub", Json.str (hexOfBytes (Prim.Secp.ptSer pub)))]
+
 def opSecpCompact (j : Json) : Json :=
   let sig := sigOfJson j
   let c := compactRSV sig
